@@ -140,6 +140,43 @@ pub(super) fn generate_parser_actions(generator: &ParserGenerator) -> Result<()>
         generator.types.as_ref().unwrap(),
     );
 
+    // The type of a grammar symbol has the name of the symbol. It must not be
+    // one of the names each actions file starts with or the types are built
+    // from.
+    const USED_NAMES: [&str; 11] = [
+        "Input",
+        "Ctx",
+        "Token",
+        "Context",
+        "TokenKind",
+        "RustemoToken",
+        "ValSpan",
+        "String",
+        "Vec",
+        "Option",
+        "Box",
+    ];
+    if let Some(name) = generator
+        .grammar
+        .terminals
+        .iter()
+        .filter(|t| t.has_content && t.reachable.get())
+        .map(|t| &t.name)
+        .chain(
+            generator
+                .grammar
+                .nonterminals()
+                .iter()
+                .filter(|nt| nt.reachable.get())
+                .map(|nt| &nt.name),
+        )
+        .find(|name| USED_NAMES.contains(&name.as_str()))
+    {
+        return Err(Error::Error(format!(
+            "Grammar symbol '{name}' has the name of a type used in the generated actions."
+        )));
+    }
+
     // Generate types and actions for terminals
     generator
         .grammar
